@@ -20,7 +20,9 @@ MAXRT = 'fixed_point::max_response_time'
 DEDICATED = T.struct('supply::dedicated::Dedicated', {})
 
 A = T.var('A')      # the offset
-X = T.var('X')      # the fixed-point variable
+# the fixed-point variable: search only ever calls the workload closure with values >= 1, which is encoded by
+# writing it as x + 1 over a non-negative root x (so `(d + r).saturating_sub(1)` and `d + r - 1` are one term)
+X = T.add(T.var('x'), T.const(1))
 O = T.var('o')      # "for each other/interfering task"
 DELTA = T.var('δ')  # an item of steps_iter
 
